@@ -147,8 +147,10 @@ def Atom.guard (s : PState) : Atom → Bool
     | some t => s.curOpen && s.curHdr && s.pending == t.ents && !t.ents.isEmpty && t.ts != 0
     | none => false
   | .ack => s.acked < s.done && (!s.cfg.syncWrites || (s.curOpen && !s.curDirty && (!s.cfg.dirSyncFix || s.curDurEntry)))
-  | .kmk id => s.kout.any (fun o => o.id == id && o.stage == 0) && !s.flusherHolds id && (aget id s.tset).isNone
-  | .kwrite id => s.kout.any (fun o => o.id == id && o.stage == 1) && !s.flusherHolds id && (aget id s.tset).isNone
+  | .kmk id => s.kout.any (fun o => o.id == id && o.stage == 0) && !s.flusherHolds id && (aget id s.tset).isNone &&
+    (aget id s.tsetD).isNone   -- (ghost) the id is fresh: no state of the MANIFEST, durable or not, lists it
+  | .kwrite id => s.kout.any (fun o => o.id == id && o.stage == 1) && !s.flusherHolds id && (aget id s.tset).isNone &&
+    (aget id s.tsetD).isNone
   | .kmset =>
     !s.kins.isEmpty && s.kout.all (fun o => o.stage == 3 && (aget o.id s.tset).isNone) &&
     !s.mdirty && s.kdir && s.pendU.isEmpty &&
@@ -299,7 +301,7 @@ def flushAtom (s : PState) : Option (List FsOp × PState) :=
     match s.fpc with
     | 0 => some (mkFile (.sst s.nextSst), { s with fpc := 1, fsst := s.nextSst, nextSst := s.nextSst + 1 })
     | 1 =>
-      if (aget s.fsst s.tset).isNone ∧ !s.kout.any (fun o => o.id == s.fsst) then
+      if ((aget s.fsst s.tset).isNone ∧ !s.kout.any (fun o => o.id == s.fsst)) ∧ (aget s.fsst s.tsetD).isNone then
         some ([.append (.sst s.fsst) (.table es)], { s with fpc := 2 })
       else none
     | 2 => some ([.sync (.sst s.fsst)], { s with fpc := if s.cfg.dirSyncFix then 3 else 4 })
